@@ -1,7 +1,256 @@
-From Coq Require Import NArith List Bool String.
+(* C32 -- proofs about the model Xml.v: entity decoding vs escaping, ParseAttrs vs the attribute
+   printer, find vs reach.  (The element-tree round trip is in XmlTreeProofs.v.) *)
+From Coq Require Import String.
+From Coq Require Import NArith List Bool Lia Arith.
 From F8 Require Import C32.XmlBase C32.Xml C32.Spec_C32.
 Import ListNotations.
 Local Open Scope N_scope.
+
+(* ------------------------------------------------------------------ strings *)
+Lemma str_eqb_refl : forall a, str_eqb a a = true.
+Proof. induction a; simpl; auto. rewrite N.eqb_refl. auto. Qed.
+
+Lemma str_eqb_eq : forall a b, str_eqb a b = true <-> a = b.
+Proof.
+  induction a; destruct b; simpl; split; intros H; try discriminate; auto.
+  - apply andb_true_iff in H. destruct H as [H1 H2]. apply N.eqb_eq in H1. apply IHa in H2. congruence.
+  - inversion H; subst. rewrite N.eqb_refl. apply IHa. reflexivity.
+Qed.
+
+Lemma str_eqb_neq : forall a b, str_eqb a b = false <-> a <> b.
+Proof.
+  intros. split; intros H.
+  - intros E. apply str_eqb_eq in E. congruence.
+  - destruct (str_eqb a b) eqn:E; auto. apply str_eqb_eq in E. contradiction.
+Qed.
+
+Lemma str_eqb_sym : forall a b, str_eqb a b = str_eqb b a.
+Proof.
+  intros. destruct (str_eqb a b) eqn:E.
+  - apply str_eqb_eq in E. subst. symmetry. apply str_eqb_refl.
+  - symmetry. apply str_eqb_neq. apply str_eqb_neq in E. congruence.
+Qed.
+
+(* ------------------------------------------------------------------ span / skip_while / count_while *)
+Lemma span_skip_count : forall p s, span p s = (firstn (count_while p s) s, skip_while p s).
+Proof.
+  induction s; simpl; auto.
+  destruct (p a); auto. rewrite IHs. reflexivity.
+Qed.
+
+Lemma span_app : forall p s a b, span p s = (a, b) -> s = a ++ b.
+Proof.
+  induction s; simpl; intros.
+  - inversion H; auto.
+  - destruct (p a).
+    + destruct (span p s) eqn:E. inversion H; subst. simpl. f_equal. apply IHs. reflexivity.
+    + inversion H; subst. reflexivity.
+Qed.
+
+Lemma length_firstn_count : forall p s, length (firstn (count_while p s) s) = count_while p s.
+Proof. induction s; simpl; auto. destruct (p a); simpl; auto. Qed.
+
+Lemma count_while_app_stop : forall p a c y, p c = false -> count_while p (a ++ c :: y) = count_while p a.
+Proof. induction a; simpl; intros. - rewrite H. auto. - destruct (p a); auto. Qed.
+
+Lemma skip_while_app_stop : forall p a c y, p c = false -> skip_while p (a ++ c :: y) = skip_while p a ++ c :: y.
+Proof. induction a; simpl; intros. - rewrite H. auto. - destruct (p a); auto. Qed.
+
+(* a character that cannot occur inside  name;  *)
+Definition stopper (c : byte) : bool := negb (lower_c c) && negb (d14_c c) && negb (c =? 59).
+
+Lemma semicolon_next_app_stop : forall x c y, (c =? 59) = false -> semicolon_next (x ++ c :: y) = semicolon_next x.
+Proof. destruct x; simpl; auto. Qed.
+
+Lemma named_tail_app_stop : forall a c y, stopper c = true -> named_tail (a ++ c :: y) = named_tail a.
+Proof.
+  intros a c y H. unfold stopper in H. apply andb_true_iff in H. destruct H as [H H3].
+  apply andb_true_iff in H. destruct H as [H1 H2].
+  apply negb_true_iff in H1, H2, H3.
+  unfold named_tail.
+  rewrite count_while_app_stop by assumption.
+  rewrite skip_while_app_stop by assumption.
+  rewrite skip_while_app_stop by assumption.
+  rewrite semicolon_next_app_stop by assumption. reflexivity.
+Qed.
+
+(* the model's anchored matchers and the specification's shape tests agree *)
+Lemma named_at_none : forall s, named_tail s = false -> named_at s = None.
+Proof.
+  intros s H. unfold named_at. rewrite span_skip_count.
+  rewrite length_firstn_count.
+  unfold named_tail in H.
+  change is_lower with lower_c. change is_14 with d14_c.
+  destruct (Nat.leb 2 (count_while lower_c s)); auto.
+  rewrite span_skip_count. simpl in H.
+  destruct (skip_while d14_c (skip_while lower_c s)) eqn:E; auto.
+  simpl in H. rewrite H. reflexivity.
+Qed.
+
+Lemma num_at_none : forall s, num_tail (35 :: s) = false -> num_at s = None.
+Proof.
+  intros s H.
+  destruct s as [|x r]; auto.
+  change (num_tail (35 :: x :: r)) with
+    ((35 =? 35) && (if x =? 120
+                    then Nat.leb 1 (count_while hex_c r) && semicolon_next (skip_while hex_c r)
+                    else Nat.leb 1 (count_while digit_c (x :: r)) && semicolon_next (skip_while digit_c (x :: r)))) in H.
+  rewrite N.eqb_refl in H. rewrite andb_true_l in H.
+  unfold num_at.
+  destruct (x =? 120) eqn:Ex.
+  - rewrite span_skip_count. change is_hex with hex_c.
+    pose proof (length_firstn_count hex_c r) as L.
+    destruct (firstn (count_while hex_c r) r) eqn:F; auto.
+    simpl in L.
+    destruct (count_while hex_c r); [discriminate|]. rewrite andb_true_l in H.
+    destruct (skip_while hex_c r); auto. simpl in H. rewrite H. reflexivity.
+  - remember (x :: r) as s' eqn:Es.
+    rewrite span_skip_count. change is_digit with digit_c.
+    pose proof (length_firstn_count digit_c s') as L.
+    destruct (firstn (count_while digit_c s') s') eqn:F; auto.
+    simpl in L.
+    destruct (count_while digit_c s'); [discriminate|]. rewrite andb_true_l in H.
+    destruct (skip_while digit_c s'); auto. simpl in H. rewrite H. reflexivity.
+Qed.
+
+Lemma ref_free_find_named : forall v, ref_free v = true -> find_named v = None.
+Proof.
+  induction v; simpl; intros H; auto.
+  apply andb_true_iff in H. destruct H as [H1 H2].
+  rewrite (IHv H2).
+  destruct (a =? 0); auto.
+  destruct (a =? 38) eqn:E; auto.
+  simpl in H1. apply negb_true_iff in H1. apply orb_false_iff in H1. destruct H1 as [H1 _].
+  rewrite (named_at_none _ H1). reflexivity.
+Qed.
+
+Lemma ref_free_find_num : forall v, ref_free v = true -> find_num v = None.
+Proof.
+  induction v; simpl; intros H; auto.
+  apply andb_true_iff in H. destruct H as [H1 H2].
+  rewrite (IHv H2).
+  destruct (a =? 0); auto.
+  destruct (a =? 38) eqn:E; auto.
+  simpl in H1. apply negb_true_iff in H1. apply orb_false_iff in H1. destruct H1 as [_ H1].
+  destruct v as [|h r']; auto.
+  destruct (h =? 35) eqn:E2; auto.
+  apply N.eqb_eq in E2. subst h.
+  rewrite (num_at_none _ H1). reflexivity.
+Qed.
+
+(* ------------------------------------------------------------------ decoding an escaped text *)
+(* the already decoded part of the text: no NUL, and no '&' in it starts a name; once the text is
+   closed by a stopper character *)
+Fixpoint pre_ok (p : str) : bool :=
+  match p with
+  | [] => true
+  | c :: r => negb (c =? 0) && negb ((c =? 38) && named_tail r) && pre_ok r
+  end.
+
+Lemma pre_ok_of_ref_free : forall p c r,
+  stopper c = true -> no_nul p = true -> ref_free (p ++ c :: r) = true -> pre_ok p = true.
+Proof.
+  induction p; simpl; intros; auto.
+  apply andb_true_iff in H0. destruct H0 as [N1 N2].
+  apply andb_true_iff in H1. destruct H1 as [R1 R2].
+  rewrite (IHp c r H N2 R2). rewrite N1. simpl.
+  destruct (a =? 38); simpl in *; auto.
+  apply negb_true_iff in R1. apply orb_false_iff in R1. destruct R1 as [R1 _].
+  rewrite named_tail_app_stop in R1 by assumption. rewrite R1. reflexivity.
+Qed.
+
+Lemma find_named_after_prefix : forall p m name x,
+  pre_ok p = true -> named_at m = Some (name, x) ->
+  find_named (p ++ 38 :: m) = Some (p, name, x).
+Proof.
+  induction p; intros m name x P M.
+  - simpl. rewrite M. reflexivity.
+  - simpl in P. apply andb_true_iff in P. destruct P as [P P3].
+    apply andb_true_iff in P. destruct P as [P1 P2].
+    apply negb_true_iff in P1.
+    simpl app. simpl find_named. rewrite P1.
+    rewrite (IHp m name x P3 M).
+    destruct (a =? 38); auto.
+    simpl in P2. apply negb_true_iff in P2.
+    assert (S38 : stopper 38 = true) by reflexivity.
+    rewrite <- (named_tail_app_stop p 38 m S38) in P2.
+    rewrite (named_at_none _ P2). reflexivity.
+Qed.
+
+Lemma no_nul_app : forall a b, no_nul (a ++ b) = no_nul a && no_nul b.
+Proof. intros. unfold no_nul. apply forallb_app. Qed.
+
+Lemma escape_cons : forall c r, escape (c :: r) = esc_byte c ++ escape r.
+Proof. reflexivity. Qed.
+
+Lemma xlate_named_escape : forall r p fuel,
+  ref_free (p ++ r) = true -> no_nul (p ++ r) = true -> (length r <= fuel)%nat ->
+  xlate_named fuel (p ++ escape r) = p ++ r.
+Proof.
+  induction r as [|c r IH]; intros p fuel RF NN L.
+  - simpl. rewrite app_nil_r in *.
+    destruct fuel; simpl; auto. rewrite (ref_free_find_named _ RF). reflexivity.
+  - rewrite escape_cons.
+    assert (NP : no_nul p = true).
+    { rewrite no_nul_app in NN. apply andb_true_iff in NN. tauto. }
+    assert (step : forall name,
+               stopper c = true ->
+               esc_byte c = 38 :: name ++ [59] -> entity_char name = c ->
+               (forall x, named_at (name ++ 59 :: x) = Some (name, x)) ->
+               xlate_named fuel (p ++ esc_byte c ++ escape r) = p ++ c :: r).
+    { intros name SC E EC NA.
+      destruct fuel as [|f]; [simpl in L; lia|].
+      rewrite E. simpl app.
+      replace ((name ++ [59]) ++ escape r) with (name ++ 59 :: escape r)
+        by (rewrite <- app_assoc; reflexivity).
+      simpl xlate_named.
+      rewrite (find_named_after_prefix p _ name (escape r)
+                 (pre_ok_of_ref_free p c r SC NP RF) (NA _)).
+      rewrite EC.
+      replace (p ++ c :: escape r) with ((p ++ [c]) ++ escape r) by (rewrite <- app_assoc; reflexivity).
+      replace (p ++ c :: r) with ((p ++ [c]) ++ r) by (rewrite <- app_assoc; reflexivity).
+      apply IH.
+      - rewrite <- app_assoc. exact RF.
+      - rewrite <- app_assoc. exact NN.
+      - simpl in L. lia. }
+    unfold esc_byte in *.
+    destruct (c =? 38) eqn:E1.
+    { apply N.eqb_eq in E1. subst c. apply (step [97; 109; 112]); try reflexivity. }
+    destruct (c =? 60) eqn:E2.
+    { apply N.eqb_eq in E2. subst c. apply (step [108; 116]); try reflexivity. }
+    destruct (c =? 62) eqn:E3.
+    { apply N.eqb_eq in E3. subst c. apply (step [103; 116]); try reflexivity. }
+    destruct (c =? 34) eqn:E4.
+    { apply N.eqb_eq in E4. subst c. apply (step [113; 117; 111; 116]); try reflexivity. }
+    destruct (c =? 39) eqn:E5.
+    { apply N.eqb_eq in E5. subst c. apply (step [97; 112; 111; 115]); try reflexivity. }
+    simpl app.
+    replace (p ++ c :: escape r) with ((p ++ [c]) ++ escape r) by (rewrite <- app_assoc; reflexivity).
+    replace (p ++ c :: r) with ((p ++ [c]) ++ r) by (rewrite <- app_assoc; reflexivity).
+    apply IH.
+    + rewrite <- app_assoc. exact RF.
+    + rewrite <- app_assoc. exact NN.
+    + simpl in L. lia.
+Qed.
+
+Lemma length_escape : forall v, (length v <= length (escape v))%nat.
+Proof.
+  induction v; simpl; auto.
+  rewrite app_length. unfold esc_byte.
+  repeat match goal with |- context [if ?b then _ else _] => destruct b end; simpl; lia.
+Qed.
+
+Lemma xlate_escape : forall v, value_ok v = true -> xlate (escape v) = v.
+Proof.
+  intros v H. unfold value_ok in H. apply andb_true_iff in H. destruct H as [NN RF].
+  unfold xlate.
+  pose proof (xlate_named_escape v [] (S (length (escape v))) RF NN) as X.
+  simpl app in X. rewrite X by (pose proof (length_escape v); lia).
+  simpl. rewrite (ref_free_find_num _ RF). reflexivity.
+Qed.
+
+Lemma c32_entity_single_partial_lemma : forall v, value_ok v = true -> xlate (escape v) = v.
+Proof. exact xlate_escape. Qed.
 
 Lemma c32_entity_refuted_lemma :
   let v := bs "&lt;" in
@@ -9,3 +258,396 @@ Lemma c32_entity_refuted_lemma :
   parse_doc (print_el (El (bs "a") None (Some v) [(bs "k", v)] [])) =
     Ok (El (bs "a") None (Some (bs "<")) [(bs "k", bs "<")] []).
 Proof. vm_compute. repeat split. Qed.
+
+(* ------------------------------------------------------------------ ParseAttrs *)
+(* the character loop without the extra turn at the end of the string *)
+Fixpoint arun (line : N) (f : aframe) (s : str) : res aframe :=
+  match s with
+  | [] => Ok f
+  | c :: r => match astep line f c with
+              | Ok f' => arun line f' r
+              | Err m => Err m
+              | OutOfFuel => OutOfFuel
+              end
+  end.
+
+Lemma last_nonempty_indep : forall (r : str) n a b, last (n :: r) a = last (n :: r) b.
+Proof. induction r; intros; auto. change (last (a :: r) a0 = last (a :: r) b). apply IHr. Qed.
+
+Lemma aloop_arun : forall line s f prev,
+  aloop line f s prev = match arun line f s with
+                        | Ok f' => astep line f' (last s prev)
+                        | Err m => Err m
+                        | OutOfFuel => OutOfFuel
+                        end.
+Proof.
+  induction s as [|c r IH]; intros; simpl; auto.
+  destruct (astep line f c) eqn:E; auto.
+  rewrite IH. destruct r; [reflexivity|].
+  rewrite (last_nonempty_indep r n c prev). reflexivity.
+Qed.
+
+Lemma arun_app : forall line s1 s2 f,
+  arun line f (s1 ++ s2) = match arun line f s1 with
+                           | Ok f' => arun line f' s2
+                           | Err m => Err m
+                           | OutOfFuel => OutOfFuel
+                           end.
+Proof.
+  induction s1 as [|c r IH]; intros; simpl; auto.
+  destruct (astep line f c); auto.
+Qed.
+
+Lemma name_char_facts : forall c, name_char c = true ->
+  isspace c = false /\ (c =? 61) = false /\ is_quote c = false /\ (c =? 47) = false /\
+  mem_byte c [92; 39; 34; 61] = false /\ (c =? 62) = false /\ (c =? 63) = false /\ (c =? 33) = false /\
+  (c =? 92) = false /\ (c =? 34) = false /\ (c =? 39) = false /\ (c =? 10) = false /\ (c =? 13) = false /\
+  (c =? 60) = false.
+Proof.
+  intros c H. unfold name_char in H.
+  unfold isspace, is_quote, mem_byte.
+  repeat match goal with
+         | H : _ || _ = true |- _ => apply orb_true_iff in H; destruct H as [H|H]
+         | H : _ && _ = true |- _ => apply andb_true_iff in H; destruct H
+         | H : (_ <=? _) = true |- _ => apply N.leb_le in H
+         | H : (_ =? _) = true |- _ => apply N.eqb_eq in H
+         end;
+  repeat split;
+  repeat match goal with
+         | |- _ || _ = false => apply orb_false_iff; split
+         | |- _ && _ = false => apply andb_false_iff
+         | |- (_ =? _) = false => apply N.eqb_neq; lia
+         end; auto;
+  try (right; apply N.leb_gt; lia); try (left; apply N.leb_gt; lia).
+Qed.
+
+Lemma arun_name : forall line k t v com acc,
+  forallb name_char k = true ->
+  arun line (mkA Atag t v com acc) k = Ok (mkA Atag (t ++ k) v com acc).
+Proof.
+  induction k as [|c r IH]; intros.
+  - simpl. rewrite app_nil_r. reflexivity.
+  - simpl in H. apply andb_true_iff in H. destruct H as [Hc Hr].
+    destruct (name_char_facts c Hc) as (F1 & F2 & F3 & _).
+    cbn [arun astep a_st]. unfold astep_tag. cbn [a_tag a_val a_com a_attrs]. rewrite F1, F2, F3.
+    rewrite IH by assumption. rewrite <- app_assoc. reflexivity.
+Qed.
+
+Lemma arun_value : forall line s t v com acc,
+  forallb (fun c => negb (c =? com)) s = true ->
+  arun line (mkA Avalue t v com acc) s = Ok (mkA Avalue t (v ++ s) com acc).
+Proof.
+  induction s as [|c r IH]; intros.
+  - simpl. rewrite app_nil_r. reflexivity.
+  - simpl in H. apply andb_true_iff in H. destruct H as [Hc Hr].
+    cbn [arun astep a_st a_tag a_val a_com a_attrs].
+    rewrite Hc. rewrite IH by assumption. rewrite <- app_assoc. reflexivity.
+Qed.
+
+Lemma escape_no_quote : forall v, forallb (fun c => negb (c =? 34)) (escape v) = true.
+Proof.
+  induction v; simpl; auto.
+  rewrite forallb_app. rewrite IHv. rewrite andb_true_r.
+  unfold esc_byte.
+  repeat match goal with |- context [if ?b then _ else _] => destruct b eqn:? end; try reflexivity.
+  simpl. rewrite Heqb2. reflexivity.
+Qed.
+
+Lemma has_any_name : forall k, forallb name_char k = true -> has_any [92; 39; 34; 61] k = false.
+Proof.
+  induction k; simpl; intros; auto.
+  apply andb_true_iff in H. destruct H as [Hc Hr].
+  destruct (name_char_facts a Hc) as (_ & _ & _ & _ & F5 & _).
+  simpl in F5. rewrite F5. auto.
+Qed.
+
+Lemma arun_cons : forall line f c r,
+  arun line f (c :: r) = match astep line f c with
+                         | Ok f' => arun line f' r
+                         | Err m => Err m
+                         | OutOfFuel => OutOfFuel
+                         end.
+Proof. reflexivity. Qed.
+
+Lemma astep_ews_blank : forall line t v com acc,
+  astep line (mkA Aews t v com acc) 32 = Ok (mkA Aews t v com acc).
+Proof. reflexivity. Qed.
+
+Lemma astep_ews_name : forall line t v com acc c, name_char c = true ->
+  astep line (mkA Aews t v com acc) c = Ok (mkA Atag (t ++ [c]) v com acc).
+Proof.
+  intros. destruct (name_char_facts c H) as (F1 & F2 & F3 & F4 & _).
+  cbn [astep a_st a_tag a_val a_com a_attrs]. rewrite F4, F1. reflexivity.
+Qed.
+
+Lemma astep_tag_eq : forall line t v com acc,
+  astep line (mkA Atag t v com acc) 61 = Ok (mkA Aoq t v com acc).
+Proof. reflexivity. Qed.
+
+Lemma astep_oq_quote : forall line t v com acc,
+  astep line (mkA Aoq t v com acc) 34 = Ok (mkA Avalue t v 34 acc).
+Proof. reflexivity. Qed.
+
+Lemma astep_value_close : forall line t v acc,
+  has_any [92; 39; 34; 61] t = false -> str_eqb t s_docpath = false -> has_key t acc = false ->
+  astep line (mkA Avalue t v 34 acc) 34 = Ok (mkA Aews [] [] 0 (acc ++ [(t, xlate v)])).
+Proof.
+  intros. cbn [astep a_st a_tag a_val a_com a_attrs].
+  rewrite N.eqb_refl. cbn [negb]. rewrite H, H0, H1. reflexivity.
+Qed.
+
+Lemma arun_attr : forall line k v acc,
+  key_ok k = true -> value_ok v = true -> has_key k acc = false ->
+  arun line (mkA Aews [] [] 0 acc) (print_attr (k, v)) = Ok (mkA Aews [] [] 0 (acc ++ [(k, v)])).
+Proof.
+  intros line k v acc K V HK.
+  unfold key_ok in K. apply andb_true_iff in K. destruct K as [K1 K2].
+  unfold is_name in K1. apply andb_true_iff in K1. destruct K1 as [K0 K1].
+  destruct k as [|c k]; [discriminate|].
+  pose proof K1 as K1'.
+  simpl in K1. apply andb_true_iff in K1. destruct K1 as [Kc Kr].
+  change (print_attr (c :: k, v)) with (32 :: c :: (k ++ 61 :: 34 :: escape v ++ [34])).
+  rewrite arun_cons, astep_ews_blank.
+  rewrite arun_cons, astep_ews_name by assumption.
+  rewrite arun_app, arun_name by assumption.
+  rewrite arun_cons, astep_tag_eq.
+  rewrite arun_cons, astep_oq_quote.
+  rewrite arun_app, arun_value by apply escape_no_quote.
+  rewrite arun_cons. simpl app.
+  rewrite astep_value_close.
+  - rewrite xlate_escape by assumption. reflexivity.
+  - apply has_any_name. exact K1'.
+  - change s_docpath with s_docpath_attr. apply negb_true_iff in K2. exact K2.
+  - exact HK.
+Qed.
+
+Lemma has_key_app : forall k a b, has_key k (a ++ b) = has_key k a || has_key k b.
+Proof.
+  induction a; simpl; intros; auto. destruct a. rewrite IHa. apply orb_assoc.
+Qed.
+
+Lemma arun_attrs : forall line m acc,
+  keys_nodup m = true ->
+  forallb (fun kv => key_ok (fst kv) && value_ok (snd kv)) m = true ->
+  forallb (fun kv => negb (has_key (fst kv) acc)) m = true ->
+  arun line (mkA Aews [] [] 0 acc) (print_attrs m) = Ok (mkA Aews [] [] 0 (acc ++ m)).
+Proof.
+  induction m as [|[k v] m IH]; intros acc ND OK DJ.
+  - simpl. rewrite app_nil_r. reflexivity.
+  - simpl in ND, OK, DJ.
+    apply andb_true_iff in ND. destruct ND as [ND1 ND2].
+    apply andb_true_iff in OK. destruct OK as [OK1 OK2].
+    apply andb_true_iff in OK1. destruct OK1 as [OKk OKv].
+    apply andb_true_iff in DJ. destruct DJ as [DJ1 DJ2].
+    apply negb_true_iff in DJ1. apply negb_true_iff in ND1.
+    change (print_attrs ((k, v) :: m)) with (print_attr (k, v) ++ print_attrs m).
+    rewrite arun_app. rewrite arun_attr by assumption.
+    rewrite IH; auto.
+    + rewrite <- app_assoc. reflexivity.
+    + (* the remaining keys are not among acc ++ [(k, v)] *)
+      clear IH OK2 ND2.
+      induction m as [|[k' v'] m IHm]; simpl; auto.
+      simpl in DJ2, ND1.
+      apply andb_true_iff in DJ2. destruct DJ2 as [D1 D2].
+      apply orb_false_iff in ND1. destruct ND1 as [N1 N2].
+      rewrite has_key_app. simpl.
+      apply negb_true_iff in D1. rewrite D1. simpl.
+      rewrite str_eqb_sym, N1. simpl. apply IHm; auto.
+Qed.
+
+Lemma astep_ews_attrs : forall line acc c, exists f',
+  astep line (mkA Aews [] [] 0 acc) c = Ok f' /\ a_attrs f' = acc.
+Proof.
+  intros. cbn [astep a_st a_tag a_val a_com a_attrs].
+  destruct (c =? 47); [eexists; split; reflexivity|].
+  destruct (negb (isspace c)); eexists; split; reflexivity.
+Qed.
+
+Lemma c32_attrs_partial_lemma : forall line m,
+  attrs_ok m = true -> parse_attrs line (print_attrs m) = Ok m.
+Proof.
+  intros line m H. unfold attrs_ok in H. apply andb_true_iff in H. destruct H as [ND OK].
+  unfold parse_attrs. rewrite aloop_arun.
+  rewrite (arun_attrs line m [] ND OK).
+  - simpl app.
+    destruct (astep_ews_attrs line m (last (print_attrs m) 0)) as (f' & E & A).
+    rewrite E, A. reflexivity.
+  - clear. induction m; simpl; auto.
+Qed.
+
+(* ------------------------------------------------------------------ find *)
+Lemma index_of_none_mem : forall s, index_of 47 s = None -> mem_byte 47 s = false.
+Proof.
+  induction s; cbn [index_of mem_byte]; intros; auto.
+  destruct (a =? 47) eqn:E; [discriminate|].
+  rewrite (N.eqb_sym 47 a), E. cbn [orb]. apply IHs. destruct (index_of 47 s); [discriminate|reflexivity].
+Qed.
+
+Lemma mem_index_of_none : forall s, mem_byte 47 s = false -> index_of 47 s = None.
+Proof.
+  induction s; cbn [index_of mem_byte]; intros; auto.
+  apply orb_false_iff in H. destruct H as [H1 H2].
+  rewrite (N.eqb_sym a 47), H1. rewrite IHs by assumption. reflexivity.
+Qed.
+
+Lemma split_no_slash : forall s, index_of 47 s = None -> split_slash s = [s].
+Proof.
+  induction s; simpl; intros; auto.
+  destruct (a =? 47) eqn:E; [discriminate|].
+  destruct (index_of 47 s) eqn:I; [discriminate|].
+  rewrite IHs by reflexivity. reflexivity.
+Qed.
+
+Lemma split_at_slash : forall s p, index_of 47 s = Some p ->
+  split_slash s = firstn p s :: split_slash (skipn (S p) s).
+Proof.
+  induction s; simpl; intros; [discriminate|].
+  destruct (a =? 47) eqn:E.
+  - inversion H; subst. reflexivity.
+  - destruct (index_of 47 s) eqn:I; [|discriminate].
+    inversion H; subst. rewrite (IHs n eq_refl). reflexivity.
+Qed.
+
+Lemma index_of_length : forall s p, index_of 47 s = Some p -> (length (skipn (S p) s) < length s)%nat.
+Proof.
+  induction s; simpl; intros; [discriminate|].
+  destruct (a =? 47).
+  - inversion H; subst. simpl. lia.
+  - destruct (index_of 47 s) eqn:I; [|discriminate]. inversion H; subst.
+    specialize (IHs n eq_refl). lia.
+Qed.
+
+Lemma mapi_from_ext : forall (A B : Type) (g h : nat -> A -> B) l n,
+  (forall i k, In k l -> g i k = h i k) -> mapi_from n g l = mapi_from n h l.
+Proof.
+  induction l; simpl; intros; auto.
+  rewrite H by auto. rewrite IHl; auto.
+Qed.
+
+Lemma strip_root_noroot : forall s, starts_with [47; 47] s = false -> strip_root s = (false, s).
+Proof.
+  intros. destruct s as [|c1 [|c2 r]]; cbn [starts_with strip_root] in *; auto.
+  rewrite andb_true_r in H. rewrite (N.eqb_sym c1 47), (N.eqb_sym c2 47), H. reflexivity.
+Qed.
+
+Lemma find_tags_ok_kids : forall t k, find_tags_ok t = true -> In k (el_kids t) -> find_tags_ok k = true.
+Proof.
+  intros [tag d v att kids] k H I. simpl in *.
+  apply andb_true_iff in H. destruct H as [_ H].
+  rewrite forallb_forall in H. auto.
+Qed.
+
+Lemma find_tags_ok_tag : forall t, find_tags_ok t = true ->
+  el_tag t <> [] /\ mem_byte 47 (el_tag t) = false.
+Proof.
+  intros [tag d v att kids] H. simpl in *.
+  apply andb_true_iff in H. destruct H as [H _].
+  apply andb_true_iff in H. destruct H as [H1 H2].
+  apply negb_true_iff in H2. split; auto.
+  destruct tag; [discriminate|congruence].
+Qed.
+
+(* the path walk below one element (no leading "//") *)
+Lemma find_all_walk : forall root q fuel what cur a,
+  find_tags_ok cur = true -> starts_with [47; 47] what = false -> (length what < fuel)%nat ->
+  find_all fuel root cur a what q = reach (split_slash what) q cur a.
+Proof.
+  intros root q. induction fuel as [|f IH]; intros what cur a TK NR L; [lia|].
+  cbn [find_all]. rewrite NR.
+  destruct (find_tags_ok_tag cur TK) as [TNE TNS].
+  destruct (str_eqb what (el_tag cur)) eqn:E.
+  - apply str_eqb_eq in E. subst what.
+    rewrite split_no_slash by (apply mem_index_of_none; exact TNS).
+    cbn [reach]. rewrite str_eqb_refl. reflexivity.
+  - destruct (index_of 47 what) as [fpos|] eqn:I.
+    + rewrite (split_at_slash _ _ I).
+      set (lwhat := skipn (S fpos) what).
+      cbn [reach].
+      assert (NE : split_slash lwhat <> []).
+      { destruct lwhat as [|c r]; simpl; [discriminate|].
+        destruct (c =? 47); [discriminate|]. destruct (split_slash r); discriminate. }
+      destruct (el_kids cur) as [|k0 ks] eqn:KS.
+      * destruct (str_eqb (firstn fpos what) (el_tag cur)); [|reflexivity].
+        destruct (split_slash lwhat); [contradiction|reflexivity].
+      * destruct (str_eqb (firstn fpos what) (el_tag cur)); [|reflexivity].
+        destruct (split_slash lwhat) as [|c0 rest] eqn:SP; [contradiction|].
+        rewrite <- SP. f_equal.
+        apply mapi_from_ext. intros i k IN.
+        assert (TKk : find_tags_ok k = true).
+        { apply (find_tags_ok_kids cur); auto. rewrite KS. exact IN. }
+        destruct (find_tags_ok_tag k TKk) as [KNE _].
+        assert (HD : split_slash lwhat =
+                     (match index_of 47 lwhat with Some p => firstn p lwhat | None => lwhat end)
+                       :: tl (split_slash lwhat)).
+        { destruct (index_of 47 lwhat) eqn:I2.
+          - rewrite (split_at_slash _ _ I2). reflexivity.
+          - rewrite (split_no_slash _ I2). reflexivity. }
+        set (nwhat := match index_of 47 lwhat with Some p => firstn p lwhat | None => lwhat end) in *.
+        destruct (str_eqb (el_tag k) nwhat) eqn:EK.
+        -- apply str_eqb_eq in EK.
+           apply IH; auto.
+           ++ (* lwhat does not start with '/', since its first component is a non-empty tag *)
+              destruct lwhat as [|c r] eqn:LW; [reflexivity|].
+              cbn [starts_with]. destruct (47 =? c) eqn:C47; [|reflexivity].
+              exfalso. apply KNE. rewrite EK. unfold nwhat. cbn [index_of].
+              rewrite (N.eqb_sym c 47), C47. reflexivity.
+           ++ pose proof (index_of_length _ _ I). fold lwhat in H. lia.
+        -- rewrite HD. cbn [reach]. rewrite str_eqb_sym, EK. reflexivity.
+    + rewrite (split_no_slash _ I). cbn [reach]. rewrite E.
+      destruct (el_kids cur); reflexivity.
+Qed.
+
+Lemma find_all_exact : forall root q fuel what cur a,
+  find_tags_ok root = true -> find_tags_ok cur = true -> (length what < fuel)%nat ->
+  find_all fuel root cur a what q = reach_path root cur a what q.
+Proof.
+  intros root q. induction fuel as [|f IH]; intros what cur a TR TK L; [lia|].
+  destruct (starts_with [47; 47] what) eqn:SW.
+  - cbn [find_all]. rewrite SW.
+    destruct what as [|c1 [|c2 r]]; cbn [starts_with] in SW; try discriminate.
+    { rewrite andb_false_r in SW. discriminate. }
+    rewrite andb_true_r in SW.
+    cbn [skipn].
+    rewrite IH; auto; [|simpl in L; lia].
+    unfold reach_path. cbn [strip_root]. rewrite (N.eqb_sym c1 47), (N.eqb_sym c2 47), SW.
+    destruct (strip_root r) as [rooted p]. simpl snd.
+    destruct rooted; reflexivity.
+  - rewrite find_all_walk; auto.
+    unfold reach_path. rewrite strip_root_noroot by assumption. reflexivity.
+Qed.
+
+Lemma first_some_concat : forall (A : Type) (ls : list (list A)),
+  first_some (map (@hd_error A) ls) = hd_error (List.concat ls).
+Proof.
+  induction ls; simpl; auto.
+  destruct a; simpl; auto.
+Qed.
+
+Lemma mapi_from_map : forall (A B C : Type) (g : nat -> A -> B) (h : B -> C) l n,
+  map h (mapi_from n g l) = mapi_from n (fun i k => h (g i k)) l.
+Proof. induction l; simpl; intros; auto. rewrite IHl. reflexivity. Qed.
+
+Lemma find_first_hd : forall root q fuel what cur a,
+  find_first fuel root cur a what q = hd_error (find_all fuel root cur a what q).
+Proof.
+  intros root q. induction fuel as [|f IH]; intros; [reflexivity|].
+  cbn [find_first find_all].
+  destruct (starts_with [47; 47] what); [apply IH|].
+  destruct (str_eqb what (el_tag cur)).
+  - destruct (attr_pred q cur); reflexivity.
+  - destruct (el_kids cur) eqn:KS; [reflexivity|]. rewrite <- KS.
+    destruct (index_of 47 what); [|reflexivity].
+    destruct (str_eqb _ (el_tag cur)); [|reflexivity].
+    rewrite <- first_some_concat. rewrite mapi_from_map.
+    f_equal. apply mapi_from_ext. intros i k _.
+    destruct (str_eqb (el_tag k) _); [apply IH|reflexivity].
+Qed.
+
+Lemma c32_find_exact_lemma : forall root cur a path q,
+  find_tags_ok root = true -> find_tags_ok cur = true ->
+  find_all (find_fuel path) root cur a path q = reach_path root cur a path q /\
+  find_first (find_fuel path) root cur a path q = hd_error (reach_path root cur a path q).
+Proof.
+  intros. rewrite find_first_hd.
+  rewrite find_all_exact; auto.
+Qed.
